@@ -1,6 +1,8 @@
 """Replay behaviours of spec/Copy.tla: histories before and after a deepcopy / pickle round trip."""
 import copy
+import json
 import pickle
+import zlib
 
 from harness.core import import_param
 
@@ -18,6 +20,7 @@ class Top(param.Parameterized):
     n = param.Integer(0, bounds=(0, 5), allow_refs=True)   # assignments take the reference-aware path
     l = param.List([])
     a = param.Parameter(None)
+    u = param.Integer(0)          # nobody watches it; only its per-instance `default` attribute is edited
     __slots__ = []
 
     @param.depends("n", watch=True)
@@ -40,7 +43,7 @@ class TopAttr(Top):
 
 def snapshot(o):
     return {"n": o.n, "l": len(o.l), "leaf": o.a is not None, "x": o.a.x if o.a is not None else None,
-            "pb": (o.param.n.bounds[1] - 5), "attr": getattr(o, "plainattr", 0), "slot": getattr(o, "slotattr", 0)}
+            "pb": (o.param.n.bounds[1] - 5), "pd": o.param.u.default, "attr": getattr(o, "plainattr", 0), "slot": getattr(o, "slotattr", 0)}
 
 
 def replay(beh, opts):
@@ -48,6 +51,9 @@ def replay(beh, opts):
     st0 = steps[0]["st"]["orig"]
     cls = TopAttr if opts.get("slots") else Top
     objs = {"orig": cls(a=Leaf() if st0["leaf"] else None)}
+    if zlib.crc32(json.dumps(beh, sort_keys=True).encode()) % 2:
+        # the object under test has itself been restored from saved state once already
+        objs["orig"] = pickle.loads(pickle.dumps(objs["orig"]))
     objs["orig"].plainattr = 0
     if opts.get("slots"):
         objs["orig"].slotattr = 0
@@ -62,7 +68,12 @@ def replay(beh, opts):
         del LOG[:]
         try:
             if n == "setn":
-                objs[a["side"]].n = a["v"]
+                if a.get("route") == "update":
+                    objs[a["side"]].param.update(n=a["v"])
+                else:
+                    objs[a["side"]].n = a["v"]
+            elif n == "setpd":
+                objs[a["side"]].param.u.default = a["d"]
             elif n == "setx":
                 objs[a["side"]].a.x = a["v"]
             elif n == "attach":
@@ -97,7 +108,7 @@ def replay(beh, opts):
         for sd, o in objs.items():
             e = s["st"][sd]
             g = snapshot(o)
-            exp = {"n": e["n"], "l": e["l"], "leaf": e["leaf"], "x": e["x"] if e["leaf"] else None, "pb": e["pb"], "attr": e["attr"],
+            exp = {"n": e["n"], "l": e["l"], "leaf": e["leaf"], "x": e["x"] if e["leaf"] else None, "pb": e["pb"], "pd": e["pd"], "attr": e["attr"],
                    "slot": e["attr"] if opts.get("slots") else 0}
             if g != exp:
                 kind = "not_faithful" if n == "copy" else "not_independent" if a.get("side") != sd else "value"
